@@ -797,7 +797,7 @@ with SqlImpl.impl_store.impl_manager as impl:
     @impl(ops.str_slice)
     def _str_slice(x, offset, length):
         # SQL has 1-indexed strings but we do it 0-indexed
-        return sqa.func.SUBSTR(x, offset + 1, length)
+        return sqa.func.SUBSTR(x, offset + 1, length, type_=sqa.String())
 
     @impl(ops.dt_year)
     def _dt_year(x):
